@@ -29,10 +29,10 @@ class Facts:
         # enum `E { U, D(T) }` that took the place of an `Option<T>` (engine/normalise.py) reads as that Option
         self.enum_options = list(enum_options or [])
         eo = []
-        for E, U, D, T, clash in self.enum_options:
+        for E, U, D, T, clash, fname in self.enum_options:
             e = re.escape(E)
-            eo.append((E, U, D, clash,
-                       re.compile(r'"adt":"%s","var":"(%s|%s)"' % (e, re.escape(U), re.escape(D))),
+            eo.append((E, U, D, clash, fname,
+                       re.compile(r'"adt":"%s","var":"(%s|%s)"(,"fields":\["%s"\])?' % (e, re.escape(U), re.escape(D), re.escape(fname))),
                        re.compile(r'("adt":")%s(","vars":\{)([^}]*)(\})' % e),
                        re.compile(r'"%s::(%s|%s)"' % (e, re.escape(U), re.escape(D))),
                        re.compile(r'"@(%s|%s)"' % (re.escape(U), re.escape(D))),
@@ -53,11 +53,14 @@ class Facts:
         self.meta = {}
         with open(path, "r") as f:
             for line in f:
-                for E, U, D, clash, rx_agg, rx_dis, rx_sum, rx_proj, rx_ty, opt_ty in eo:
+                for E, U, D, clash, fname, rx_agg, rx_dis, rx_sum, rx_proj, rx_ty, opt_ty in eo:
                     if E not in line:
                         continue
                     vmap = {U: "None", D: "Some"}
-                    line = rx_agg.sub(lambda m_: '"adt":"std::option::Option","var":"%s"' % vmap[m_.group(1)], line)
+                    line = rx_agg.sub(lambda m_: '"adt":"std::option::Option","var":"%s"%s' % (vmap[m_.group(1)], ',"fields":["0"]' if m_.group(2) else ""), line)
+                    if fname != "0" and not any(c_ in line for c_ in clash):
+                        # `x@D.field` of a struct-like variant is the payload `x@Some.0`
+                        line = line.replace('"@%s",".%s"' % (D, fname), '"@Some",".0"')
                     line = rx_dis.sub(lambda m_: m_.group(1) + "std::option::Option" + m_.group(2) +
                                       re.sub(r'"(%s|%s)"' % (re.escape(U), re.escape(D)), lambda q: '"%s"' % vmap[q.group(1)], m_.group(3)) + m_.group(4), line)
                     line = rx_sum.sub(lambda m_: '"std::option::Option::%s"' % vmap[m_.group(1)], line)
